@@ -34,12 +34,26 @@ def get_binding(name, namespace):
             return binding
 
 
+def disallow_global_rename(name, namespace):
+    """
+    Prevent renaming of the module level binding of a name that is bound in a class namespace
+
+    A name that is bound in a class body is looked up in the class namespace and then directly in the
+    module namespace, so a load of it in the class body may refer to the module level binding.
+    """
+
+    for binding in get_global_namespace(namespace).bindings:
+        if binding.name == name:
+            binding.disallow_rename()
+
+
 def get_binding_disallow_class_namespace_rename(name, namespace):
     binding = get_binding(name, namespace)
 
     if isinstance(namespace, ast.ClassDef):
         # This name will become an attribute of a class, so it can't be renamed
         binding.disallow_rename()
+        disallow_global_rename(name, namespace)
 
     return binding
 
@@ -59,8 +73,9 @@ def resolve_names(node):
         binding = get_binding(node.id, node.namespace)
         binding.add_reference(node)
 
-        if isinstance(node.ctx, ast.Store) and isinstance(node.namespace, ast.ClassDef):
+        if isinstance(node.ctx, (ast.Store, ast.Del)) and isinstance(node.namespace, ast.ClassDef):
             binding.disallow_rename()
+            disallow_global_rename(node.id, node.namespace)
 
     elif isinstance(node, ast.ClassDef) and node.name in node.namespace.nonlocal_names:
         binding = get_binding_disallow_class_namespace_rename(node.name, node.namespace)
